@@ -7,6 +7,7 @@ import (
 	"sync"
 	"sync/atomic"
 	"testing"
+	"time"
 
 	"verifharness/g8sig"
 	"verifharness/keys"
@@ -95,7 +96,7 @@ func genC23Cases(r *vf.Run) []c23Case {
 func TestC23(t *testing.T) {
 	r := vf.Start(t, "C23", vf.FaultEnumeration)
 	defer r.Finish()
-	r.SetRule("Part (ii) scripted honest relay: case = (sends by X in {1,2}, partner messages in {0,1,2}, partner attached before/after X, partner acks at once / only when released at a quiescent point, fault program); fault programs = every single fault kind in {re-open without Closed (+1 usurp, +2 detach/attach coalesced), Closed immediately followed by Opened, Closed .. quiescence .. Opened, X's own stream killed (client retry)} at EVERY crossing index k of the exchange (request handled / ack emitted / RecvMsg emitted), plus PRNG-sampled pairs. The relay+partner is a reference model written from the protocol description, played to a REAL client. Part (i) Harness B: two real clients <-> tap/proxy <-> real server, one fault in {kill partner's stream, kill own stream, partner Release+AddPeerRef, usurp by a duplicate raw Session call} at every proxy crossing k. Non-trivial = a fault fired while at least one send obligation was open; distinct = distinct case descriptions (plus crossing orders for Harness B). Oracle (stuck state, no deadline): after the last fault the process is brought to a quiescent state (every goroutine parked in select/chan wait in two consecutive goroutine dumps, event counters stable, every expected stream re-established and drained); in that state every Send issued must have returned ok, the partner must have got every message, and X's application every partner message. A parked Send in a quiescent system is a violation")
+	r.SetRule("Part (ii) scripted honest relay: case = (sends by X in {1,2}, partner messages in {0,1,2}, partner attached before/after X, partner acks at once / only when released at a quiescent point, fault program); fault programs = every single fault kind in {re-open without Closed (+1 usurp, +2 detach/attach coalesced), Closed immediately followed by Opened, Closed .. quiescence .. Opened, X's own stream killed (client retry)} at EVERY crossing index k of the exchange (request handled / ack emitted / RecvMsg emitted), plus PRNG-sampled pairs. The relay+partner is a reference model written from the protocol description, played to a REAL client. Part (i) Harness B: two real clients <-> tap/proxy <-> real server, one fault in {kill partner's stream, kill own stream, partner Release+AddPeerRef, usurp by a duplicate raw Session call} at every proxy crossing k. Non-trivial = a fault fired while at least one send obligation was open; distinct = distinct case descriptions (plus crossing orders for Harness B). Oracle (stuck state, no deadline): after the last fault the process is brought to a quiescent state (every goroutine parked in select/chan wait in two consecutive goroutine dumps, event counters stable, every expected stream re-established and drained); in that state every Send issued must have returned ok, the partner must have got every message, and X's application every partner message. A parked Send in a quiescent system is a violation. Part (iii) stream ENDINGS under virtual time (testing/synctest bubble per case: the clock only advances when every goroutine of the case is durably blocked): X's (scripted honest relay) resp. A's own or the partner's (Harness B) Session stream ends in one of 12 shapes - error, error with the in-flight write failing too, remote error after the queued responses were drained, clean io.EOF (later writes fail / fail with EOF / in-flight write fails / queued responses lost / half-close: writes still succeed and go nowhere), error half-close, unexpected EOF, stream context cancelled, EOF plus context cancelled - at EVERY crossing index of the exchange (inside a write of the client) and at a quiescent point with the client's writer idle; then one more Send per side is issued. After every step the bubble runs dry, 2 s of virtual time (400 x the harness-chosen constant 5 ms retry back-off) are granted and it runs dry again; oracle: every Send has returned ok and every partner message was received - a Send still parked then is stuck (nothing runnable, no timer due within 400 back-offs); no wall-clock time enters the verdict")
 	r.Assume("fairness of the Go scheduler during the stable suffix; quiescence is inferred from goroutine dumps plus harness counters; the only timers in the system are the client's 5 ms retry back-off, covered by the stream-liveness predicate")
 
 	pool := keys.Pool(r.Rand("c23-keys"), 8)
@@ -107,6 +108,10 @@ func TestC23(t *testing.T) {
 	r.Count("barrier_rounds_scripted", rounds)
 
 	runC23HarnessB(r, pool)
+
+	t0 := time.Now()
+	runC23Endings(r, t, pool)
+	r.Extra("endings_part_wall_ms(informational)", time.Since(t0).Milliseconds())
 }
 
 func runC23Scripted(r *vf.Run, idx int, c c23Case, pool []*keys.Identity, b *g8sig.Batch) {
